@@ -57,10 +57,36 @@ def wire_replay(chk, nd, stages):
     return summary
 
 
+def wire_trace_validate(chk, name, trace_path, what, pid_filter=None):
+    """impl -> spec: TLC explains recorded codec events with Trace_Wire (SpecEncode / DecodeAllowed) or rejects them."""
+    r = tlc("Trace_Wire", os.path.join(SPEC, "Trace_Wire.cfg"), name, workers=1, env={"TRACE": trace_path}, timeout=1800, trace_mode=True)
+    chk.add_tlc(name, r)
+    nev = sum(1 for _ in open(trace_path))
+    chk.evaluations += nev
+    if r.violated:
+        idx, ev = r.rejected if r.rejected else (0, {})
+        if ev.get("ev") == "Enc":
+            key = f"trace:Enc:{ev.get('kind')}:{ev.get('res')}"
+        elif ev.get("ev") == "Dec":
+            key = f"trace:Dec:{ev.get('res')}:type{(ev.get('buf') or [0, 0])[1] if len(ev.get('buf') or []) > 1 else 'none'}:{ev.get('tag')}"
+        else:
+            key = f"trace:{ev.get('ev')}:{ev.get('mode')}:{norm_key(json.dumps(ev.get('seen')))}"
+        chk.violation(key, f"{what}: event {idx} is not allowed by the specification: {json.dumps(ev)[:600]}",
+                      {"kind": "wire-trace", "events": [ev]})
+    else:
+        chk.traces += 1
+    log(f"[trace] {name}: {nev} events, {'accepted' if r.ok else 'REJECTED'} in {r.wall:.0f}s")
+    return r
+
+
 def _wire_check(chk, pid, rule):
     chk.rule = rule
     nd, n = wire_vectors(chk, f"{pid.lower()}_gen")
     wire_replay(chk, nd, WIRE_STAGES[pid])
+    # impl -> spec: records recombined from the vectors' field values (field interactions), encoded by the real codec
+    tp = os.path.join(WORK, f"{pid.lower()}_cross.ndjson")
+    out = harness(["wire-cross", "--vectors", nd, "--out", tp, "--seed", str(chk.seed), "--per", "150" if chk.tier == "thorough" else "30"])
+    wire_trace_validate(chk, f"{pid.lower()}_cross", tp, "recombined record")
     chk.assumptions += ["the oracle is spec/LfsWire.tla, a transcription of InSim.txt (v9) and the relay description made from memory (no network); "
                         "time-unit remarks and the signedness of char fields are outside the oracle",
                         "32-bit fields are covered at boundary values, not exhaustively; text in these vectors is ASCII (code pages: C10-C12)"]
@@ -84,7 +110,58 @@ def check_C03(chk):
                 "be one well-formed frame equal to SpecEncode; where the specification says `refused` it must fail; a decoded packet must re-encode.")
 
 
+def check_C04(chk):
+    """Decoding untrusted bytes is total, bounded and always progresses."""
+    thorough = chk.tier == "thorough"
+    chk.rule = ("Every (size byte, type byte) header pair x both size modes x buffer lengths {0,1,3,4,n-1,n,n+4,1024}; every byte "
+                "of one valid frame of every kind set to all 256 values; seeded mutations of valid frames (bit flips, truncations, "
+                "extensions, size-byte edits, two frames) and random buffers. The harness records outcome and buffer effect of the real "
+                "Codec::decode (panics are caught and are data) and TLC validates every event against DecodeAllowed of LfsWire: need-more "
+                "leaves the buffer untouched, packet / decode error remove exactly the announced n >= 4 bytes, framing error only for an "
+                "impossible length, never a panic; every decoded packet must re-encode without aborting.")
+    nd, n = wire_vectors(chk, "c04_gen")
+    tp = os.path.join(WORK, "c04_fuzz.ndjson")
+    out = harness(["wire-fuzz", "--vectors", nd, "--out", tp, "--seed", str(chk.seed), "--events", "400000" if thorough else "40000"])
+    chk.extra["fuzz"] = json.loads(out.strip().splitlines()[-1])
+    # harness-side facts TLC does not see: the re-encode result of decoded packets
+    cases = 0
+    with open(tp) as f:
+        for i, line in enumerate(f):
+            e = json.loads(line)
+            cases += e.get("cases", 1)
+            if e.get("reenc") == "panic":
+                chk.violation(f"reencode-panic:type{e['buf'][1]}", f"a packet obtained by decoding makes the encoder abort: {e['buf']}",
+                              {"kind": "wire-trace", "events": [e]})
+            if i in (5, 4000, 9000):
+                chk.sample({k: v for k, v in e.items() if k != "buf"} | {"buf_prefix": (e.get("buf") or [])[:16]})
+            chk.case({"sb": e.get("sb"), "len": e.get("len"), "res": e.get("res"), "tag": e.get("tag"), "seen": e.get("seen"), "o": e.get("offset"), "k": e.get("kind")})
+    chk.extra["decode_calls"] = cases
+    chk.traces += cases
+    wire_trace_validate(chk, "c04_tv", tp, "decode")
+    chk.exhaustive = False
+    chk.assumptions += ["exhaustive over headers and single-byte substitutions only; beyond that seeded mutation sampling",
+                        "memory safety of the unsafe buffer fill in Framed is not addressed by this technique"]
+
+
 def replay_case(case):
+    if case["kind"] == "wire-trace":
+        os.makedirs(WORK, exist_ok=True)
+        tp = os.path.join(WORK, "replay_case_wire.ndjson")
+        evs = []
+        for e in case["events"]:
+            if e.get("ev") == "Dec" and "buf" in e:
+                # re-run the real decoder on the stored buffer
+                bp = os.path.join(WORK, "replay_case_buf.json")
+                json.dump({"mode": e["mode"], "buf": e["buf"]}, open(bp, "w"))
+                out = harness(["wire-dec", "--in", bp])
+                evs.append(json.loads(out.strip().splitlines()[-1]))
+            else:
+                evs.append(e)
+        open(tp, "w").write("".join(json.dumps(e) + "\n" for e in evs))
+        r = tlc("Trace_Wire", os.path.join(SPEC, "Trace_Wire.cfg"), "replay_case", workers=1, env={"TRACE": tp}, trace_mode=True)
+        bad = (not r.ok) or any(e.get("reenc") == "panic" for e in evs)
+        print("rejected" if bad else "accepted", evs[0] if evs else "")
+        return 1 if bad else 0
     if case["kind"] == "wire-vector":
         os.makedirs(WORK, exist_ok=True)
         nd = os.path.join(WORK, "replay_case_vec.ndjson")
